@@ -31,6 +31,10 @@ fn parse_args() -> Args {
     args
 }
 
+fn flag_val(extra: &[String], name: &str) -> Option<u64> {
+    extra.iter().position(|x| x == name).and_then(|i| extra.get(i + 1)).and_then(|s| s.parse().ok())
+}
+
 fn usage() -> ! {
     eprintln!("usage: mdw-drive <imgops|dirops|...> [--in file] --out trace [--seed N] [--random N]");
     std::process::exit(2)
@@ -98,6 +102,40 @@ fn main() {
             for i in 0..args.random {
                 let h = mdwh::dirops::random_history(&mut rng);
                 mdwh::dirops::replay_history(&h, 1_000_000 + i as u64, &mut tr, "random");
+            }
+        }
+        "aggregate" => {
+            // input: one JSON array of model cases per line
+            for batch in read_histories(&args.input) {
+                for c in &batch {
+                    mdwh::maps::run_model_case(c, &mut tr);
+                }
+            }
+            if let Some(d) = flag_val(&args.extra, "--enum") {
+                for gate in [0u64, 2, 3] {
+                    mdwh::maps::enumerate(d as usize, gate, &mut tr);
+                }
+            }
+            for _ in 0..args.random {
+                let (text, gate) = mdwh::maps::random_text(&mut rng);
+                mdwh::maps::run_case(&text, gate, "random", None, &mut tr);
+            }
+            // live samples: this process and every readable /proc/<pid>/maps
+            if args.extra.iter().any(|x| x == "--live") {
+                let mut n = 0;
+                if let Ok(rd) = std::fs::read_dir("/proc") {
+                    for e in rd.flatten() {
+                        if n >= 40 { break; }
+                        let name = e.file_name();
+                        if !name.to_string_lossy().chars().all(|c| c.is_ascii_digit()) { continue; }
+                        if let Ok(text) = std::fs::read_to_string(e.path().join("maps")) {
+                            if text.is_empty() { continue; }
+                            let vdso = mdwh::maps::parse_text(&text).iter().find(|l| l.name.as_deref() == Some("[vdso]")).map(|l| l.start).unwrap_or(0);
+                            mdwh::maps::run_case(&text, vdso, "live", None, &mut tr);
+                            n += 1;
+                        }
+                    }
+                }
             }
         }
         _ => usage(),
